@@ -30,7 +30,26 @@ class Path:
     exit: str  # 'fall' | 'continue' | 'break' | 'return' | 'raise'
 
 
-def paths(stmts, limit=MAX_PATHS):
+def test_outcomes(t):
+    """short-circuit evaluations of a test: [(events, truth)], one event ("test", atom, polarity) per operand actually
+    evaluated -- `a or b` is true after (a true) or (a false, b true) and false after (a false, b false)"""
+    if isinstance(t, ast.BoolOp):
+        stop = isinstance(t.op, ast.Or)  # the value that ends the evaluation
+        done, carry = [], [[]]
+        for v in t.values:
+            nxt = []
+            for pre in carry:
+                for evs, val in test_outcomes(v):
+                    (done if val == stop else nxt).append((pre + evs, val) if val == stop else pre + evs)
+            carry = nxt
+        return done + [(pre, not stop) for pre in carry]
+    if isinstance(t, ast.UnaryOp) and isinstance(t.op, ast.Not):
+        return [(evs, not val) for evs, val in test_outcomes(t.operand)]
+    return [([("test", t, True)], True), ([("test", t, False)], False)]
+
+
+def paths(stmts, limit=MAX_PATHS, split=False):
+    """split=True: compound tests are taken apart by short-circuit evaluation (test_outcomes)"""
     out = []
 
     def go(lst, i, ev):
@@ -41,8 +60,10 @@ def paths(stmts, limit=MAX_PATHS):
         st = lst[i]
         res = []
         if isinstance(st, ast.If):
-            for pol, branch in ((True, st.body), (False, st.orelse)):
-                for ev2, ex in go(branch, 0, ev + [("test", st.test, pol)]):
+            alts = [(evs, st.body if val else st.orelse) for evs, val in test_outcomes(st.test)] if split else \
+                [([("test", st.test, True)], st.body), ([("test", st.test, False)], st.orelse)]
+            for evs, branch in alts:
+                for ev2, ex in go(branch, 0, ev + evs):
                     if ex == "fall":
                         res.extend(go(lst, i + 1, ev2))
                     else:
